@@ -12,10 +12,11 @@ MANIFEST = {
             'representation rule for inherited methods',
     'text': 'Decides for every input: the value-returning operators of Reaction (copy, +, -, *, /, neg, backwards) store nothing through self or the argument and '
             'return a fresh object on every path; copy() of a reaction set does not share mutable state; each in-place operator computes the same linear form for '
-            'stoichiometry and conversion as its binary twin with consistent signs; ReactionItem aliases the parent arrays; the helper shared by the binary and '
-            'in-place operators never changes the operand object itself; every attribute stored on an instance built with K.__new__(K) is storable (else the '
-            'operator can never return). Both operands are filtered with has_reaction() before the net-stoichiometry formula of + - += -=; no method inherited by '
-            'ReactionItem reads self._X directly. Equality of reaction products on feeds is not decided.',
+            'stoichiometry and conversion as its binary twin with consistent signs; ReactionItem aliases the parent arrays; the helper shared by the binary and in-'
+            'place operators never changes the operand object itself (callees that change an argument in place are summarised transitively, per parameter '
+            'position); every attribute stored on an instance built with K.__new__(K) is storable (else the operator can never return). Both operands are filtered '
+            'with has_reaction() before the net-stoichiometry formula of + - += -=; no method inherited by ReactionItem reads self._X directly. Equality of '
+            'reaction products on feeds is not decided.',
 }
 
 RX = 'thermosteam/reaction/_reaction.py'
